@@ -1,5 +1,6 @@
 import Driver.Proto
 import PqModel.Stats
+import PqModel.LevelStats
 
 /-! Ops of C05 (statistics / page indexes). Numeric values travel as unsigned decimal BIT PATTERNS
     (`i32 4294967291` is -5; `f32 2143289344` is a NaN), byte strings as hex (`e` = empty string, `-` = empty list).
@@ -13,7 +14,8 @@ import PqModel.Stats
     c05.cmp <kind> <a> <b>            -> ok <-1|0|1>       Type.Compare
     c05.index <kind> <lim> <pages>    -> ok <order> <mins> <maxs>     ColumnIndexer (pages: min:max or n; also flba<size>, be128)
     c05.fold <kind> <pages>           -> ok none | ok <min> <max>     recordPageStats chunk fold
-    kinds: i32 i64 u32 u64 f32 f64 | bytes flba dec (hex) | bool -/
+    c05.hist <maxLevel> <pages>       -> ok <chunk histogram> <flat page histograms>   level histograms
+    kinds: i32 i64 u32 u64 f32 f64 | bytes flba dec int96 (hex) | bool -/
 namespace Driver.Ops.C05
 open Driver PqModel PqModel.Stats
 
@@ -36,11 +38,16 @@ def numKind? : String → Option NumKind
   | "f64" => some ⟨64, f64, true⟩
   | _ => none
 
+/-- INT96 travels as its 12 PLAIN bytes (three little-endian 32-bit words) -/
+def leWord (bs : List Nat) : Nat := bs.foldr (fun b acc => b + 256 * acc) 0
+def i96Words (bs : List Nat) : I96 := (leWord (bs.take 4), leWord ((bs.drop 4).take 4), leWord ((bs.drop 8).take 4))
+
 /-- the order of a byte-string kind: `dec` compares with the mirror of `compareDecimalByteArrays` -/
 def bytesLt? : String → Option (List Nat → List Nat → Bool)
   | "bytes" => some lexLt
   | "flba" => some lexLt
   | "dec" => some (fun a b => cmpDecimal a b < 0)
+  | "int96" => some (fun a b => int96Less (i96Words a) (i96Words b))
   | _ => none
 
 def bytesOrder (lt : List Nat → List Nat → Bool) : ColOrder (List Nat) := { lt := lt, ok := fun _ => true }
@@ -89,6 +96,7 @@ def handle (toks : List String) : Option String :=
       | "bytes", some xs => showPair hexN (boundsSwitch lexLt xs)
       | "flba", some xs => showPair hexN (bounds lexLt xs)
       | "dec", some xs => showPair hexN (bounds (fun a b => cmpDecimal a b < 0) xs)
+      | "int96", some xs => showPair hexN (bounds (fun a b => int96Less (i96Words a) (i96Words b)) xs)
       | _, _ => "bad-op"
   | ["c05.order", kind, vals] => some <|
     match numKind? kind with
@@ -106,6 +114,10 @@ def handle (toks : List String) : Option String :=
         match parseList? parseNat? vals with
         | some xs => s!"ok {orderOfBool (xs.map (· != 0))}"
         | none => "bad-op"
+      | "int96" =>
+        match parseList? parseHexN? vals with
+        | some xs => s!"ok {orderOf (fun a b => int96Less (i96Words a) (i96Words b)) xs}"
+        | none => "bad-op"
       | _ => "bad-op"
   | ["c05.border", a, b] => some <|
     match parseInt? a, parseInt? b with
@@ -119,8 +131,8 @@ def handle (toks : List String) : Option String :=
       | _, _ => "bad-op"
     | none =>
       match bytesLt? kind, parseHexN? a, parseHexN? b with
-      | some _, some a, some b =>
-        if kind == "dec" then s!"ok {cmpDecimal a b}" else s!"ok {cmp3 lexLt a b}"
+      | some lt, some a, some b =>
+        if kind == "dec" then s!"ok {cmpDecimal a b}" else s!"ok {cmp3 lt a b}"
       | _, _, _ => "bad-op"
   | ["c05.index", kind, lim, pages] => some <|
     match numKind? kind with
@@ -135,6 +147,10 @@ def handle (toks : List String) : Option String :=
       match kind, parseNat? lim, parseList? (parsePage? parseHexN?) pages with
       | "bytes", some lim, some ps =>
         s!"ok {bytesIndexOrder lim ps} {showList hexN (bytesIndexMins lim ps)} {showList hexN (bytesIndexMaxs lim ps)}"
+      | "int96", some _, some ps =>
+        let o := bytesOrder (fun a b => int96Less (i96Words a) (i96Words b))
+        let z := List.replicate 12 0
+        s!"ok {indexOrder o z ps} {showList hexN (storedMins z ps)} {showList hexN (storedMaxs z ps)}"
       | kind, some lim, some ps =>
         -- `flba<size>`: fixedLenByteArrayColumnIndexer; `be128`: the 16-byte indexer (never truncates)
         let size? : Option (Nat × Nat) :=
@@ -158,6 +174,13 @@ def handle (toks : List String) : Option String :=
       match bytesLt? kind, parseList? (parsePage? parseHexN?) pages with
       | some lt, some ps => showPair hexN (foldChunk (bytesOrder lt) ps)
       | _, _ => "bad-op"
+  | ["c05.hist", maxLevel, pages] => some <|
+    -- pages separated by `;`, levels by `,`, `-` = page without levels
+    match parseNat? maxLevel, (pages.splitOn ";").mapM (parseList? parseNat?) with
+    | some m, some ps =>
+      let r := LevelStats.chunkHists m ps
+      s!"ok {showList toString r.1} {showList toString r.2}"
+    | _, _ => "bad-op"
   | _ => none
 
 end Driver.Ops.C05
